@@ -18,9 +18,9 @@ theorem inv_step {k s l s'} (hi : Inv k s) (hs : Step s l s') : Inv k s' := by
   · exact inv_step_4 hi hs h
   · exact inv_step_5 hi hs h
 
-theorem inv_reachable {k fx n s} (h : Reachable k fx n s) : Inv k s := by
+theorem inv_reachable {k n s} (h : Reachable k n s) : Inv k s := by
   induction h with
-  | init => exact inv_init k fx n
+  | init => exact inv_init k n
   | step _ hs ih => exact inv_step ih hs
 
 end Yaclib.FiberSync.Mx
